@@ -26,27 +26,33 @@ CATALOG: dict[str, dict] = {
     "SvToStream": dict(kind="op", i="float", o="stream", params={"step": 0.5}),
     "SvStreamSum": dict(kind="op", i="stream", o="float", params={}),
     "SvCtxWriterOpaque": dict(kind="op", i="float", o="float", params={}, creates=["opq"]),
+    "SvCtxWriterArray": dict(kind="op", i="float", o="float", params={}, creates=["arr"]),
+    "SvCtxWriterMixedKeys": dict(kind="op", i="float", o="float", params={}, creates=["mk"]),
     "SvWrongOutput": dict(kind="op", i="float", o="wrong", params={}),
     "SvCtxWriterA": dict(kind="op", i="float", o="float", params={"scale": 1.0}, creates=["wa"]),
     "SvCtxWriterB": dict(kind="op", i="float", o="float", params={}, creates=["wb"]),
     "SvToText": dict(kind="op", i="float", o="text", params={}),
     "SvTextLen": dict(kind="op", i="text", o="float", params={}),
     "SvCollSum": dict(kind="op", i="coll", o="float", params={"weight": 1.0}),
+    "SvBumpLast": dict(kind="op", i="coll", o="coll", params={"delta": 1.0}),
     "SvProbe": dict(kind="probe", i="float", o="float", params={}),
     "SvProbeNone": dict(kind="probe", i="float", o="float", params={}),
     "SvProbeParam": dict(kind="probe", i="float", o="float", params={"offset": None}),
     "SvProbeDefault": dict(kind="probe", i="float", o="float", params={"offset": 0.5}),
     "SvFileSink": dict(kind="sink", i="float", o="float", params={"path": None}),
     "SvNullSink": dict(kind="sink", i="float", o="float", params={}),
+    "SvPayloadSink": dict(kind="sink", i="float", o="float", params={}),
     "SvCtxCombine": dict(kind="ctx", i=None, o=None, params={"a_in": None, "b_in": 1.25}, creates=["comb_out"]),
 }
 FLOAT_OPS = ["SvAdd", "SvAddDefault", "SvMul", "SvMulDefault", "SvAffine", "SvCtxWriterA", "SvCtxWriterB", "SvCaseOp",
              "SvScaleInPlace", "SvAdd", "SvMulDefault", "SvAffine"]
 PROBES = ["SvProbe", "SvProbeParam", "SvProbeDefault"]
 EXPRS_1 = ["2.0 * {v}", "{v} + 1.5", "{v} * {v}", "0.5 + {v} * 3.0", "-{v}", "abs({v}) + 0.25",
-           "{v} * 2.0 + 3.0 * {v} * {v}", "({v} + 1.0) * ({v} + 2.0)", "{v} * 4.0 + 0.5 * {v} + 1.0"]
+           "{v} * 2.0 + 3.0 * {v} * {v}", "({v} + 1.0) * ({v} + 2.0)", "{v} * 4.0 + 0.5 * {v} + 1.0",
+           "max({v} + 1.0, 2.0 * {v})", "abs({v} * 2.0 + 1.0)", "min({v} * {v}, {v} + 30.0) + 0.5"]      # + / * inside call arguments
 EXPRS_2 = ["{a} + {b}", "{a} * {b} + 0.5", "{b} - {a}", "2.0 * {a} + 3.0 * {b}", "{a} * 2.0 + {b} * {a}",
-           "({b} + {a}) * ({a} + 1.5)", "{a} * {b} + {b} * 0.25 + {a} * 1.5", "({a} + {b}) * ({b} + 2.0) + {a}"]
+           "({b} + {a}) * ({a} + 1.5)", "{a} * {b} + {b} * 0.25 + {a} * 1.5", "({a} + {b}) * ({b} + 2.0) + {a}",
+           "max({a} + {b}, 1.0)", "min({a} * {b} + 1.0, {b} + {a})", "abs({a} * 2.0 + {b}) + max({b} * {a}, 0.5)"]
 
 
 class _G:
@@ -197,6 +203,9 @@ class _G:
         length = rng.randint(1, 3)
         mode = rng.choice(["combinatorial", "by_position"])
         broadcast = mode == "by_position" and rng.random() < 0.3
+        if pnames and rng.random() < 0.06:
+            # a long collection (its textual form runs to several hundred characters; two of them differ only near the end)
+            length, nvars, mode, broadcast = rng.choice([18, 24]), 1, "by_position", False
         for _ in range(nvars):
             self.nvar += 1
             v = f"sv{self.nvar}"
@@ -314,6 +323,8 @@ class _G:
                 node = {"processor": "slice:SvProbe:FloatDataCollection", "context_key": ck}
                 self.emit(node, name="SvProbe", kind="slice_probe", out=None, creates=[ck], params_spec={}, generated=True)
                 self.live[ck] = "list"
+            elif r < 0.62:
+                self._plain("SvBumpLast")       # output = input except for the last item
             else:
                 self._plain("SvCollSum")
             return
@@ -331,14 +342,17 @@ class _G:
             self.place_params(name, spec["params"], node)
             self.emit(node, name=name, kind="probe", out=None, creates=[ck], params_spec=spec["params"])
         elif r < 0.76:
-            name = "SvFileSink" if (self.allow_file_sink and rng.random() < 0.6) else "SvNullSink"
+            name = "SvFileSink" if (self.allow_file_sink and rng.random() < 0.6) else rng.choice(["SvNullSink", "SvPayloadSink"])
             self._plain(name)
         elif r < 0.80:
             self._plain("SvToText")
         elif r < 0.84 and self.allow_stream:
             self._plain("SvToStream")
         elif r < 0.86 and self.allow_stream:
-            self._plain("SvCtxWriterOpaque")
+            which = rng.choice(["SvCtxWriterOpaque", "SvCtxWriterArray", "SvCtxWriterArray", "SvCtxWriterMixedKeys"])
+            self._plain(which)
+            if which == "SvCtxWriterArray" and rng.random() < 0.6 and len(self.nodes) < self.max_nodes:
+                self._plain("SvCtxWriterArray")      # the same key rebound to another array object
         elif r < 0.875 and self.allow_stream:
             self._plain("SvWrongOutput")
         elif self.allow_sweep and r < 0.95:
